@@ -7,7 +7,7 @@ LEAN_MODULE = "HexProps.C14"
 SCOPE = []
 ORACLE_RULE = "C14: see hx/oracles/framework.py (c14_case): random indicator spec (26 kinds + Amorph wrappers) x stream style x timeframe/fill x schedule on the real code"
 ASSUMPTIONS = ["TZ=UTC for this check"]
-PARTIAL = 'proved for every leaf indicator class (programs of calculate / calculate_index / purge / recalculate converge to the batch result, equality in PyM) and for the composite trees VWAP, STDEV, RSI, ATR, KC, STDEVTHRES, BBANDS, Supertrend (C14_trees: returns-iff with the same candles; calculate_index in programs only for VWAP/STDEV/RSI where it is one row step); base timeframe; MACD, STOCH, HMA, TSI, ADX and the Hexital facade operations: C14_FULL, correspondence + search only'
+PARTIAL = 'proved for every leaf indicator class (programs of calculate / calculate_index / purge / recalculate converge to the batch result, equality in PyM) and for all 13 composite trees (C14_trees over CoveredTreeX: returns-iff with the same candles; calculate_index inside programs only for the kinds where it is one row step - indexStepKindX: leaf kinds, VWAP, STDEV, RSI); base timeframe; inside a Hexital and add/remove_indicator: correspondence + search'
 
 
 def oracle(ctx):
